@@ -1100,7 +1100,7 @@ func buildJobs(c *corr.Ctx) []job {
 	}
 	// every method refused by the application in every state: the session keeps working
 	{
-		names, cases := refusalSweep()
+		names, cases := refusalSweep(c.Quick())
 		const per = 24
 		for start := 0; start < len(cases); start += per {
 			start := start
